@@ -186,15 +186,17 @@ def inverse_topology(outer, update, topology, inverse=None, multi_updates=True):
         elif key in update:
             value = update[key]
             if isinstance(path, dict):
+                path = path.copy()
                 if '_path' in path:
-                    path = path.copy()
                     inner = normalize_path(outer + path.pop('_path'))
-
-                    for update_key in update[key].keys():
-                        if update_key not in path and '*' not in path:
-                            path[update_key] = (update_key,)
                 else:
                     inner = outer
+
+                # children that the topology does not mention are wired
+                # to the store of the same name, as they are when read
+                for update_key in update[key].keys():
+                    if update_key not in path and '*' not in path:
+                        path[update_key] = (update_key,)
 
                 inverse = inverse_topology(
                     inner,
@@ -216,6 +218,14 @@ def inverse_topology(outer, update, topology, inverse=None, multi_updates=True):
                             inverse,
                             inner,
                             lambda current: deep_merge(current, value))
+                elif multi_updates and inner:
+                    # keep every update when several ports or variables
+                    # are wired to the same variable
+                    inverse = update_in(
+                        inverse,
+                        inner[:-1],
+                        lambda current: deep_merge_multi_update(
+                            current, {inner[-1]: value}))
                 else:
                     assoc_path(inverse, inner, value)
     return inverse
